@@ -8,6 +8,7 @@
 import NiftyVerif.Lemmas.Field
 import NiftyVerif.Lemmas.FieldCRat
 import NiftyVerif.Lemmas.FieldPerm
+import NiftyVerif.Lemmas.FieldOps
 import Mathlib.Data.Complex.Basic
 
 namespace NiftyVerif.C06
@@ -98,12 +99,23 @@ example : binop (· + ·) max (⟨0, [], 2, fun _ => (1 : Rat)⟩ : Fld Rat) ⟨
 
 /-- Field.mean(spaces) on BOTH code paths equals Field.integrate(spaces) divided by the total volume of the
     contracted sub-domains: the uniform path (`np.mean`, i.e. sum / count) because `count · scalar_weight` is the
-    total volume of sub-domains whose `total_volume` follows StructuredDomain's formula (hypothesis `hstd`, used on
-    this path only), the non-uniform path (`weight(1).sum · (1/total_volume)`) by construction. -/
+    total volume of sub-domains whose `total_volume` is the sum of their volume factors (`VolConsistent`: a theorem for
+    StructuredDomain's formula, the trusted-base hypothesis `4π = Σ dvol` for GLSpace/HPSpace; used on this path only), the non-uniform path (`weight(1).sum · (1/total_volume)`) by construction. -/
 theorem mean_eq_integrate_div_volume [Field K] [DecidableEq K] (f m h : Fld K) (sp : Spaces) (V : K)
     (hm : mean f sp = .ok m) (hi : integrate f sp = .ok h) (hV : totalVolume f.subs sp = .ok V)
-    (hstd : ∀ i, (f.subs.getD i default).tv = none) (hV0 : V ≠ 0) :
+    (hvc : ∀ s ∈ f.subs, VolConsistent s) (hV0 : V ≠ 0) :
     ∀ o, m.val o = h.val o * V⁻¹ := by
+  have hstd : ∀ i v, (f.subs.getD i default).dvol = .scalar v →
+      (f.subs.getD i default).totalVolume = .ok (((f.subs.getD i default).size : K) * v) := by
+    intro i v hv
+    by_cases hi' : i < f.subs.length
+    · have hmem : f.subs.getD i default ∈ f.subs := by
+        simp [List.getD_eq_getElem?_getD, List.getElem?_eq_getElem hi']
+      exact totalVolume_of_consistent_scalar _ v (hvc _ hmem) hv
+    · have : f.subs.getD i default = default := by
+        simp [List.getD_eq_getElem?_getD, List.getElem?_eq_none (Nat.le_of_not_lt hi')]
+      rw [this] at hv
+      cases hv
   unfold mean at hm
   unfold integrate at hi
   cases hsw : scalarWeight f.subs sp with
@@ -395,7 +407,7 @@ example :
     constant 1 over `spaces`), when every sub-domain has volume factors and StructuredDomain's `total_volume`. -/
 theorem total_volume_fibre [Field K] (subs : List (SubDom K)) (sp : Spaces) (l : List Nat) (V : K)
     (hp : parseSpaces sp subs.length = .ok l) (h : totalVolume subs sp = .ok V)
-    (hs : ∀ s ∈ subs, s.tv = none ∧ s.dvol ≠ .none) (o : Idx) :
+    (hs : ∀ s ∈ subs, VolConsistent s) (o : Idx) :
     V = sumOver (allIdx (sel true (maskOf subs.length l) (subs.map SubDom.size)))
           (fun c => prodOver l (fun i => dvolAt subs i (merge (maskOf subs.length l) o c))) :=
   totalVolume_eq_fibre_sum subs sp l V hp h hs o
@@ -405,7 +417,7 @@ theorem total_volume_fibre [Field K] (subs : List (SubDom K)) (sp : Spaces) (l :
     factors of the listed sub-domains. -/
 theorem mean_eq_weighted_average [Field K] [DecidableEq K] (f m h : Fld K) (sp : Spaces) (V : K)
     (hm : mean f sp = .ok m) (hi : integrate f sp = .ok h) (hV : totalVolume f.subs sp = .ok V)
-    (hs : ∀ s ∈ f.subs, s.tv = none ∧ s.dvol ≠ .none) (hV0 : V ≠ 0) :
+    (hs : ∀ s ∈ f.subs, VolConsistent s) (hV0 : V ≠ 0) :
     ∃ l, parseSpaces sp f.subs.length = .ok l ∧ ∀ o,
       m.val o =
         sumOver (allIdx (sel true (maskOf f.subs.length l) f.sizes)) (fun c =>
@@ -415,15 +427,7 @@ theorem mean_eq_weighted_average [Field K] [DecidableEq K] (f m h : Fld K) (sp :
             prodOver l (fun ind => dvolAt f.subs ind (merge (maskOf f.subs.length l) o c))))⁻¹ := by
   obtain ⟨l, hp, _, hval⟩ := integrate_eq_sum_weight f h sp hi
   refine ⟨l, hp, fun o => ?_⟩
-  have hstd : ∀ i, (f.subs.getD i default).tv = none := by
-    intro i
-    by_cases hi' : i < f.subs.length
-    · have : f.subs.getD i default ∈ f.subs := by
-        simp [List.getD_eq_getElem?_getD, List.getElem?_eq_getElem hi']
-      exact (hs _ this).1
-    · simp [List.getD_eq_getElem?_getD, List.getElem?_eq_none (Nat.le_of_not_lt hi')]
-      rfl
-  rw [mean_eq_integrate_div_volume f m h sp V hm hi hV hstd hV0 o, hval o]
+  rw [mean_eq_integrate_div_volume f m h sp V hm hi hV hs hV0 o, hval o]
   have hVs := total_volume_fibre f.subs sp l V hp hV hs o
   simp only [Fld.sizes]
   rw [← hVs]
@@ -444,7 +448,7 @@ def fibreVolume [Field K] (f : Fld K) (l : List Nat) (o : Idx) : K :=
 /-- `mean` without auxiliary hypotheses: wherever `mean(spaces)` is defined on sub-domains with volume factors and the
     fibre volume is non-zero, it is the volume-weighted average over the fibre (both code paths, any subset). -/
 theorem mean_weighted [Field K] [DecidableEq K] (f m : Fld K) (sp : Spaces) (hm : mean f sp = .ok m)
-    (hs : ∀ s ∈ f.subs, s.tv = none ∧ s.dvol ≠ .none)
+    (hs : ∀ s ∈ f.subs, VolConsistent s)
     (hW : ∀ l o, parseSpaces sp f.subs.length = .ok l → fibreVolume f l o ≠ 0) :
     ∃ l, parseSpaces sp f.subs.length = .ok l ∧ ∀ o,
       m.val o =
@@ -468,7 +472,7 @@ theorem mean_weighted [Field K] [DecidableEq K] (f m : Fld K) (sp : Spaces) (hm 
     over well-formed multi-indices of the remaining sub-domains). -/
 theorem var_eq_weighted_variance [Field K] [DecidableEq K] (nsq : K → K) (f g : Fld K) (sp : Spaces)
     (hreal : f.dt ≠ DT.complex → ∀ z, nsq z = z * z)
-    (hs : ∀ s ∈ f.subs, s.tv = none ∧ s.dvol ≠ .none)
+    (hs : ∀ s ∈ f.subs, VolConsistent s)
     (hW : ∀ l o, parseSpaces sp f.subs.length = .ok l → fibreVolume f l o ≠ 0)
     (h : var nsq f sp = .ok g) :
     ∃ l m, parseSpaces sp f.subs.length = .ok l ∧ mean f sp = .ok m ∧
@@ -501,6 +505,485 @@ example :
     ∧ fibreVolume f [0] [0] = 5/2 := by
   decide +kernel
 
+/-- `VolConsistent` (total volume of a sub-domain = sum of its volume factors), the hypothesis of the weighted-average
+    theorems, is a THEOREM for every sub-domain that uses StructuredDomain's `total_volume` (RGSpace, LMSpace,
+    PowerSpace, DOFSpace …); for GLSpace / HPSpace (`tv = some …`: `4*np.pi` resp. a float product) it is exactly the
+    statement `total_volume = Σ dvol`, listed in the trusted base and checked numerically by the harness. -/
+theorem structured_volume_consistent [Field K] (s : SubDom K) (hdv : s.dvol ≠ .none) :
+    (s.tv = none → VolConsistent s) ∧
+    (∀ T, s.tv = some T → (VolConsistent s ↔ T = sumOver (List.range s.size) (subW s))) := by
+  refine ⟨fun htv => volConsistent_of_structured s htv hdv, fun T hT => ?_⟩
+  simp only [VolConsistent, subTV, hT]
+  exact ⟨fun h => h.2, fun h => ⟨hdv, h⟩⟩
+
+-- non-vacuity: a GLSpace-like sub-domain (weights [1/2, 2], total_volume given as 5/2): mean over it is Σwx/Σw
+example :
+    let f : Fld Rat := ⟨0, [⟨[2], .vector #[1/2, 2], some (5/2)⟩], DT.float, fun i => if i.headD 0 = 0 then 3 else 5⟩
+    (match mean f .none with | .ok m => m.val [] | .error _ => 0) = 23/5 ∧
+    subTV (f.subs.headD default) = sumOver (List.range 2) (subW (f.subs.headD default)) := by
+  decide +kernel
+
+/-! ### point-wise arithmetic and comparisons: element-wise (Field) and key-wise (MultiField) semantics -/
+
+/-- what each of the twelve operators computes on one pair of entries: ring operations of the field, true division
+    as multiplication by the inverse, `**` as repeated multiplication, comparisons / equality as 0-1 indicators -/
+theorem evalBin_spec [Field K] [DecidableEq K] (E : ElemOps K) (a b : K) :
+    evalBin E .add a b = a + b ∧ evalBin E .sub a b = a - b ∧ evalBin E .mul a b = a * b ∧
+    evalBin E .truediv a b = a / b ∧ evalBin E .pow a b = a ^ E.expNat b ∧
+    evalBin E .floordiv a b = E.floordiv a b ∧
+    (evalBin E .lt a b = if E.lt a b then 1 else 0) ∧ (evalBin E .gt a b = if E.lt b a then 1 else 0) ∧
+    (evalBin E .le a b = if E.le a b then 1 else 0) ∧ (evalBin E .ge a b = if E.le b a then 1 else 0) ∧
+    (evalBin E .eq a b = if a = b then 1 else 0) ∧ (evalBin E .ne a b = if a = b then 0 else 1) := by
+  refine ⟨rfl, rfl, rfl, ?_, ?_, rfl, rfl, rfl, rfl, rfl, ?_, ?_⟩
+  · simp only [evalBin, div_eq_mul_inv]
+  · simp only [evalBin, FieldM.npow_eq_pow]
+  · simp only [evalBin, ofB, decide_eq_true_eq]
+  · by_cases h : a = b <;> simp [evalBin, ofB, h]
+
+/-- Field `<op>` Field (and the reflected `__r<op>__`): the operands must live on the very same DomainTuple, the
+    result lives there too and entry `i` of the result is the operator applied to the entries `i` of the operands —
+    nothing else of the arrays enters (array semantics, no broadcasting between different domains). -/
+theorem pointwise_binop_elementwise [Field K] [DecidableEq K] (E : ElemOps K) (o : BinOp) (rev : Bool)
+    (f g : Fld K) :
+    (g.dom ≠ f.dom → fieldBin E o rev f g = .error "ValueError") ∧
+    (∀ r, fieldBin E o rev f g = .ok r →
+      g.dom = f.dom ∧ r.dom = f.dom ∧ r.subs = f.subs ∧
+      ∀ i, r.val i = if rev then evalBin E o (g.val i) (f.val i) else evalBin E o (f.val i) (g.val i)) := by
+  constructor
+  · intro h; simp [fieldBin, h]
+  · intro r h
+    unfold fieldBin at h
+    by_cases hd : g.dom = f.dom
+    · simp only [hd, ne_eq, not_true_eq_false, if_false] at h
+      split at h
+      · cases h
+      · cases rev with
+        | true =>
+          simp only [if_true, binop, hd, ne_eq, not_true_eq_false, if_false, Except.ok.injEq] at h
+          subst h
+          exact ⟨hd, rfl, rfl, fun _ => rfl⟩
+        | false =>
+          simp only [Bool.false_eq_true, if_false, binop, hd, ne_eq, not_true_eq_false, Except.ok.injEq] at h
+          subst h
+          exact ⟨hd, rfl, rfl, fun _ => rfl⟩
+    · simp only [ne_eq, hd, not_false_eq_true, if_true] at h
+      cases h
+
+/-- Field `<op>` Python scalar / Python scalar `<op>` Field: every entry is combined with the scalar -/
+theorem pointwise_scalar_elementwise [Field K] [DecidableEq K] (E : ElemOps K) (o : BinOp) (rev : Bool)
+    (f r : Fld K) (c : K) (cdt : DT) (h : fieldBinScalar E o rev f c cdt = .ok r) :
+    r.dom = f.dom ∧ r.subs = f.subs ∧
+    ∀ i, r.val i = if rev then evalBin E o c (f.val i) else evalBin E o (f.val i) c := by
+  unfold fieldBinScalar at h
+  cases rev with
+  | true =>
+    simp only [if_true] at h
+    split at h
+    · cases h
+    · simp only [binopScalar, Except.ok.injEq] at h
+      subst h
+      exact ⟨rfl, rfl, fun _ => rfl⟩
+  | false =>
+    simp only [Bool.false_eq_true, if_false] at h
+    split at h
+    · cases h
+    · simp only [binopScalar, Except.ok.injEq] at h
+      subst h
+      exact ⟨rfl, rfl, fun _ => rfl⟩
+
+/-- unary operators act entry by entry: `-x`, `+x`, `conjugate` (identity on real dtypes), `real`, `imag`
+    (`imag` of a non-complex Field is rejected) -/
+theorem pointwise_unary [Field K] (E : ElemOps K) (o : UnOp) (f : Fld K) :
+    (o = .imag ∧ f.dt ≠ DT.complex → fieldUn E o f = .error "ValueError") ∧
+    (∀ r, fieldUn E o f = .ok r → r.dom = f.dom ∧ r.subs = f.subs ∧ ∀ i, r.val i =
+      match o with
+      | .neg => -f.val i
+      | .pos => f.val i
+      | .conjugate => if f.dt = DT.complex then E.conj (f.val i) else f.val i
+      | .real => if f.dt = DT.complex then E.re (f.val i) else f.val i
+      | .imag => E.im (f.val i)) := by
+  constructor
+  · rintro ⟨rfl, hc⟩; simp [fieldUn, hc]
+  · intro r h
+    cases o with
+    | neg => simp only [fieldUn, unop, Except.ok.injEq] at h; subst h; exact ⟨rfl, rfl, fun _ => rfl⟩
+    | pos => simp only [fieldUn, Except.ok.injEq] at h; subst h; exact ⟨rfl, rfl, fun _ => rfl⟩
+    | conjugate =>
+      by_cases hc : f.dt = DT.complex
+      · simp only [fieldUn, hc, if_true, unop, Except.ok.injEq] at h; subst h
+        exact ⟨rfl, rfl, fun _ => by simp [hc]⟩
+      · simp only [fieldUn, hc, if_false, Except.ok.injEq] at h; subst h
+        exact ⟨rfl, rfl, fun _ => by simp [hc]⟩
+    | real =>
+      by_cases hc : f.dt = DT.complex
+      · simp only [fieldUn, hc, if_true, unop, Except.ok.injEq] at h; subst h
+        exact ⟨rfl, rfl, fun _ => by simp [hc]⟩
+      · simp only [fieldUn, hc, if_false, Except.ok.injEq] at h; subst h
+        exact ⟨rfl, rfl, fun _ => by simp [hc]⟩
+    | imag =>
+      by_cases hc : f.dt = DT.complex
+      · simp only [fieldUn, hc, if_true, unop, Except.ok.injEq] at h; subst h
+        exact ⟨rfl, rfl, fun _ => rfl⟩
+      · simp only [fieldUn, hc, if_false] at h; cases h
+
+/-- `clip(a_min, a_max)` is `min(max(x, a_min), a_max)` entry by entry (a missing bound does nothing) on any linearly
+    ordered element type whose `<` the element operations implement -/
+theorem clip_spec [LinearOrder K] (E : ElemOps K) (hlt : ∀ a b, E.lt a b = decide (a < b))
+    (f : Fld K) (lo hi : K) (ldt hdt : DT) (i : Idx) :
+    (fieldClip E f (some lo) (some hi) ldt hdt).val i = min (max (f.val i) lo) hi ∧
+    (fieldClip E f (some lo) none ldt hdt).val i = max (f.val i) lo ∧
+    (fieldClip E f none (some hi) ldt hdt).val i = min (f.val i) hi ∧
+    (fieldClip E f none none ldt hdt).val i = f.val i := by
+  simp only [fieldClip, clipVal, hlt, decide_eq_true_eq]
+  refine ⟨?_, ?_, ?_, by first | trivial | rfl⟩
+  · by_cases h1 : f.val i < lo
+    · simp only [h1, if_true, max_eq_right (le_of_lt h1)]
+      by_cases h2 : hi < lo
+      · simp [h2, min_eq_right (le_of_lt h2)]
+      · simp [h2, min_eq_left (not_lt.mp h2)]
+    · simp only [h1, if_false, max_eq_left (not_lt.mp h1)]
+      by_cases h2 : hi < f.val i
+      · simp [h2, min_eq_right (le_of_lt h2)]
+      · simp [h2, min_eq_left (not_lt.mp h2)]
+  · by_cases h1 : f.val i < lo
+    · simp [h1, max_eq_right (le_of_lt h1)]
+    · simp [h1, max_eq_left (not_lt.mp h1)]
+  · by_cases h2 : hi < f.val i
+    · simp [h2, min_eq_right (le_of_lt h2)]
+    · simp [h2, min_eq_left (not_lt.mp h2)]
+
+/-- MultiField `<op>` MultiField is key-wise AND element-wise: same MultiDomain object required, and entry `i` of
+    leaf `k` of the result is the operator applied to entries `i` of the leaves `k` -/
+theorem multifield_pointwise [Field K] [DecidableEq K] (E : ElemOps K) (o : BinOp) (rev : Bool)
+    (a b r : MFld K) (h : mbinop (fieldBin E o rev) a b = .ok r) :
+    a.dom = b.dom ∧
+    List.Forall₂ (fun (ab : (String × Fld K) × (String × Fld K)) (c : String × Fld K) =>
+      c.1 = ab.1.1 ∧ ab.2.2.dom = ab.1.2.dom ∧ c.2.subs = ab.1.2.subs ∧
+      ∀ i, c.2.val i = if rev then evalBin E o (ab.2.2.val i) (ab.1.2.val i)
+                       else evalBin E o (ab.1.2.val i) (ab.2.2.val i))
+      (a.leaves.zip b.leaves) r.leaves := by
+  obtain ⟨hd, _, hf, _⟩ := multifield_op_keywise (fieldBin E o rev) a b r h
+  refine ⟨hd, ?_⟩
+  refine List.Forall₂.imp ?_ hf
+  intro ab c ⟨hk, hop⟩
+  obtain ⟨h1, _, h3, h4⟩ := (pointwise_binop_elementwise E o rev ab.1.2 ab.2.2).2 c.2 hop
+  exact ⟨hk, h1, h3, h4⟩
+
+-- non-vacuity: [3, 5] ** [2, 0] = [9, 1];  2 - [3, 5] (reflected) = [-1, -3];  [3,5] < [4,5] = [1, 0]; clip
+example :
+    let E : ElemOps Rat := ⟨fun a b => a < b, fun a b => a ≤ b, fun a b => ((a / b).floor : Int),
+      fun b => b.num.toNat, fun b => b < 0, fun b => b.den != 1 || b < 0, id, id, fun _ => 0⟩
+    let f : Fld Rat := ⟨0, [⟨[2], .none, none⟩], DT.float, fun i => if i.headD 0 = 0 then 3 else 5⟩
+    let e : Fld Rat := ⟨0, [⟨[2], .none, none⟩], DT.float, fun i => if i.headD 0 = 0 then 2 else 0⟩
+    let g : Fld Rat := ⟨0, [⟨[2], .none, none⟩], DT.float, fun i => if i.headD 0 = 0 then 4 else 5⟩
+    (match fieldBin E .pow false f e with | .ok r => [r.val [0], r.val [1]] | .error _ => []) = [9, 1] ∧
+    (match fieldBinScalar E .sub true f 2 DT.int with | .ok r => [r.val [0], r.val [1]] | .error _ => []) = [-1, -3] ∧
+    (match fieldBin E .lt false f g with | .ok r => [r.val [0], r.val [1]] | .error _ => []) = [1, 0] ∧
+    (fieldClip E f (some 4) (some (9/2)) 1 2).val [1] = 9/2 := by
+  decide +kernel
+
+/-! ### all / any / size -/
+
+/-- `s_all` / `s_any` / `all(spaces)` / `any(spaces)` are the quantifiers over the entries (of the index fibre);
+    MultiField `s_all` / `s_any` quantify over all entries of all leaves; MultiField `size` counts them. -/
+theorem all_any_size_spec [Field K] [DecidableEq K] (f : Fld K) (a : MFld K) (mask : List Bool) (o : Idx) :
+    (sAll f = true ↔ ∀ i ∈ allIdx f.sizes, f.val i ≠ 0) ∧
+    (sAny f = true ↔ ∃ i ∈ allIdx f.sizes, f.val i ≠ 0) ∧
+    (contractAll mask f.sizes f.val o = 1 ↔ ∀ c ∈ allIdx (sel true mask f.sizes), f.val (merge mask o c) ≠ 0) ∧
+    (contractAny mask f.sizes f.val o = 1 ↔ ∃ c ∈ allIdx (sel true mask f.sizes), f.val (merge mask o c) ≠ 0) ∧
+    (msAll a = true ↔ ∀ z ∈ mentries a, z ≠ 0) ∧
+    (msAny a = true ↔ ∃ z ∈ mentries a, z ≠ 0) ∧
+    msize a = (mentries a).length := by
+  refine ⟨?_, ?_, ?_, ?_, ?_, ?_, ?_⟩
+  · simp [sAll]
+  · simp [sAny]
+  · simp only [contractAll, ofB]
+    split
+    · rename_i h; simpa using h
+    · rename_i h
+      constructor
+      · intro h0; exact absurd h0.symm one_ne_zero
+      · intro hall; exact absurd (by simpa using hall) h
+  · simp only [contractAny, ofB]
+    split
+    · rename_i h; simpa using h
+    · rename_i h
+      constructor
+      · intro h0; exact absurd h0.symm one_ne_zero
+      · intro hex; exact absurd (by simpa using hex) h
+  · simp only [msAll, sAll, mentries, List.all_eq_true, List.mem_flatMap, List.mem_map, decide_eq_true_eq]
+    constructor
+    · rintro h z ⟨kv, hkv, i, hi, rfl⟩; exact h kv hkv i hi
+    · intro h kv hkv i hi; exact h _ ⟨kv, hkv, i, hi, rfl⟩
+  · simp only [msAny, sAny, mentries, List.any_eq_true, List.mem_flatMap, List.mem_map, decide_eq_true_eq]
+    constructor
+    · rintro ⟨kv, hkv, i, hi, hne⟩; exact ⟨_, ⟨kv, hkv, i, hi, rfl⟩, hne⟩
+    · rintro ⟨z, ⟨kv, hkv, i, hi, rfl⟩, hne⟩; exact ⟨kv, hkv, i, hi, hne⟩
+  · simp only [msize, mentries, List.length_flatMap, List.length_map, length_allIdx]
+
+example :
+    let f : Fld Rat := ⟨0, [⟨[2], .none, none⟩, ⟨[2], .none, none⟩], 2, fun i => (2 * i.headD 0 + i.tail.headD 0 : Nat)⟩
+    (sAll f, sAny f, msize ⟨0, [("a", f), ("b", f)]⟩,
+     (match fall f (.scalar 0) with | .ok r => [r.val [0], r.val [1]] | .error _ => [])) = (false, true, 8, [0, 1]) := by
+  decide +kernel
+
+/-! ### MultiField.vdot -/
+
+/-- MultiField.s_vdot / vdot is the sum of the leaf dot products (after the identity check of the MultiDomains and of
+    every pair of leaf domains), i.e. the dot product of the concatenated arrays -/
+theorem multifield_vdot [CommRing K] (conj : K → K) (a b : MFld K) :
+    (b.dom ≠ a.dom → msVdot conj a b = .error "ValueError") ∧
+    (∀ v, msVdot conj a b = .ok v → b.dom = a.dom ∧ (∀ p ∈ a.leaves.zip b.leaves, p.2.2.dom = p.1.2.dom) ∧
+      v = sumOver (a.leaves.zip b.leaves)
+            (fun p => sumOver (allIdx p.1.2.sizes) (fun i => conj (p.1.2.val i) * p.2.2.val i))) := by
+  constructor
+  · intro h; simp [msVdot, h]
+  · intro v h
+    unfold msVdot at h
+    by_cases hd : b.dom = a.dom
+    · simp only [hd, ne_eq, not_true_eq_false, if_false] at h
+      obtain ⟨h1, h2⟩ := sVdotLeaves_spec conj _ _ 0 v h
+      exact ⟨hd, h1, by rw [h2, zero_add]⟩
+    · simp only [ne_eq, hd, not_false_eq_true, if_true] at h
+      cases h
+
+/-- MultiField.vdot is conjugate-linear in the first argument, linear in the second and Hermitian (leaf structure of
+    the operands must agree, as the identity check of the MultiDomains guarantees) -/
+theorem multifield_vdot_conj_linear [CommRing K] (conj : K →+* K) (hinv : ∀ z, conj (conj z) = z) (α : K)
+    (a b c : MFld K)
+    (hab : List.Forall₂ (fun x y : String × Fld K => y.2.subs = x.2.subs) a.leaves b.leaves)
+    (hac : List.Forall₂ (fun x y : String × Fld K => y.2.subs = x.2.subs) a.leaves c.leaves) :
+    mvdVal conj (mlin α a b) c = conj α * mvdVal conj a c + mvdVal conj b c ∧
+    mvdVal conj c (mlin α a b) = α * mvdVal conj c a + mvdVal conj c b ∧
+    mvdVal conj a c = conj (mvdVal conj c a) := by
+  obtain ⟨da, la⟩ := a
+  obtain ⟨db, lb⟩ := b
+  obtain ⟨dc, lc⟩ := c
+  simp only [mvdVal, mlin] at *
+  induction hab generalizing lc with
+  | nil => simp [sumOver]
+  | @cons x y ta tb hxy _ ih =>
+    cases hac with
+    | @cons _ z _ tc hxz htc =>
+      obtain ⟨ih1, ih2, ih3⟩ := ih tc htc
+      have sy : y.2.sizes = x.2.sizes := by simp only [Fld.sizes, hxy]
+      have sz : z.2.sizes = x.2.sizes := by simp only [Fld.sizes, hxz]
+      simp only [List.zipWith_cons_cons, List.zip_cons_cons, sumOver, Fld.sizes] at ih1 ih2 ih3 ⊢
+      refine ⟨?_, ?_, ?_⟩
+      · rw [ih1, leaf_vd_lin_left conj α]
+        simp only [Fld.sizes, hxy] at sy ⊢
+        ring
+      · rw [ih2]
+        simp only [hxz]
+        rw [leaf_vd_lin_right conj α]
+        ring
+      · rw [map_add, ← ih3]
+        congr 1
+        rw [sumOver_hom conj (map_zero conj) (map_add conj)]
+        simp only [hxz]
+        apply sumOver_congr
+        intro i _
+        simp only [map_mul, hinv]
+        ring
+
+/-! ### unite / flexible_addsub -/
+
+/-- Field.unite is `+`; Field.flexible_addsub is `-` or `+` (both through Field._binary_op, hence with the identity
+    check). MultiField.flexible_addsub / unite: on the same MultiDomain it is the key-wise `-`/`+`; on different
+    MultiDomains the result has, key by key, the combined leaf where both operands have the key (the Field operation,
+    which checks the leaf domains), the left leaf where only the left has it, and the (negated) right leaf where only
+    the right has it — and no other keys. -/
+theorem flexible_addsub_spec (add sub : Fld K → Fld K → Except String (Fld K)) (negf : Fld K → Fld K)
+    (a b r : MFld K) (neg : Bool) (hkb : (b.leaves.map (·.1)).Nodup)
+    (h : mflex add sub negf a b neg = .ok r) :
+    (a.dom = b.dom → mbinop (if neg then sub else add) a b = .ok r) ∧
+    (a.dom ≠ b.dom → ∀ q,
+      match lookupLeaf q a.leaves, lookupLeaf q b.leaves with
+      | some x, some y => ∃ z, (if neg then sub else add) x y = .ok z ∧ lookupLeaf q r.leaves = some z
+      | some x, none => lookupLeaf q r.leaves = some x
+      | none, some y => lookupLeaf q r.leaves = some ((if neg then negf else id) y)
+      | none, none => lookupLeaf q r.leaves = none) := by
+  unfold mflex at h
+  constructor
+  · intro hd; simpa [hd] using h
+  · intro hd q
+    simp only [hd, if_false] at h
+    cases hl : mflexLoop (if neg then sub else add) (if neg then negf else id) a.leaves b.leaves with
+    | error e => simp only [hl] at h; cases h
+    | ok l =>
+      simp only [hl, Except.ok.injEq] at h
+      subst h
+      exact mflexLoop_spec _ _ b.leaves a.leaves l hkb hl q
+
+example :
+    let E : ElemOps Rat := ⟨fun a b => a < b, fun a b => a ≤ b, fun a b => ((a / b).floor : Int),
+      fun b => b.num.toNat, fun b => b < 0, fun b => b.den != 1 || b < 0, id, id, fun _ => 0⟩
+    let f : Fld Rat := ⟨0, [], 2, fun _ => 3⟩
+    let g : Fld Rat := ⟨0, [], 2, fun _ => 5⟩
+    (match mflex (fieldBin E .add false) (fieldBin E .sub false) (unop (fun x => -x) id)
+        ⟨1, [("a", f), ("c", f)]⟩ ⟨2, [("b", g), ("c", g)]⟩ true with
+      | .ok r => r.leaves.map (fun kv => (kv.1, kv.2.val [])) | .error _ => []) = [("a", 3), ("b", -5), ("c", -2)] := by
+  decide +kernel
+
+/-! ### norms of a Field -/
+
+/-- Field.norm(ord) for ord = 1, 2, ∞ on a linearly ordered field with an absolute value `ab ≥ 0`:
+    `norm(2)² = Σ|x_i|² = ⟨x, x⟩` (the dot product of the field with itself); `norm(∞)` is the largest `|x_i|`
+    (an upper bound that is attained); `norm(1) = Σ|x_i| ≥ 0` and satisfies the triangle inequality whenever `ab` does. -/
+theorem field_norm [Field K] [LinearOrder K] [IsStrictOrderedRing K] (conj : K → K) (ab nsq : K → K) (f g : Fld K)
+    (hnsq : ∀ z, nsq z = conj z * z) (hab : ∀ z, 0 ≤ ab z) :
+    sVdot conj f f = .ok (norm2Sq nsq f) ∧
+    (∀ i ∈ allIdx f.sizes, ab (f.val i) ≤ normInf max ab f) ∧
+    (allIdx f.sizes ≠ [] → ∃ i ∈ allIdx f.sizes, normInf max ab f = ab (f.val i)) ∧
+    0 ≤ norm1 ab f ∧
+    ((∀ x y, ab (x + y) ≤ ab x + ab y) → g.subs = f.subs →
+      norm1 ab { f with val := fun i => f.val i + g.val i } ≤ norm1 ab f + norm1 ab g) := by
+  refine ⟨?_, ?_, ?_, ?_, ?_⟩
+  · simp only [sVdot, ne_eq, not_true_eq_false, if_false, norm2Sq, hnsq]
+  · intro i hi
+    exact le_maxOver (allIdx f.sizes) (fun i => ab (f.val i)) i hi
+  · intro hne
+    exact maxOver_attained (allIdx f.sizes) (fun i => ab (f.val i)) (fun _ _ => hab _) hne
+  · exact sumOver_nonneg _ _ (fun _ _ => hab _)
+  · intro htri hs
+    have hsz : g.sizes = f.sizes := by simp only [Fld.sizes, hs]
+    simp only [norm1, Fld.sizes] at *
+    rw [hs, ← sumOver_add]
+    exact sumOver_le_sumOver _ _ _ (fun i _ => htri _ _)
+
+example :
+    let f : Fld Rat := ⟨0, [⟨[2], .none, none⟩], 2, fun i => if i.headD 0 = 0 then 3 else -4⟩
+    (norm1 (fun z => if z < 0 then -z else z) f, norm2Sq (fun z => z * z) f,
+     normInf (fun x y => if x < y then y else x) (fun z => if z < 0 then -z else z) f) = (7, 25, 4) := by
+  decide +kernel
+
+/-! ### products over sub-domains, scalar variants -/
+
+/-- `prod(spaces)` is the product over each index fibre, and the fibre products multiply up to the product over the
+    whole array for every mask (Fubini for products) -/
+theorem prod_partial_total [CommRing K] (f g : Fld K) (sp : Spaces) (h : fprod f sp = .ok g) :
+    ∃ l, parseSpaces sp f.subs.length = .ok l ∧
+      (∀ o, g.val o = prodOver (allIdx (sel true (maskOf f.subs.length l) f.sizes))
+                        (fun c => f.val (merge (maskOf f.subs.length l) o c))) ∧
+      (∀ mask : List Bool, mask.length = f.sizes.length →
+        prodOver (allIdx (sel false mask f.sizes)) (contractProd mask f.sizes f.val) = sProd f) := by
+  unfold fprod at h
+  cases hp : parseSpaces sp f.subs.length with
+  | error e => simp only [hp] at h; cases h
+  | ok l =>
+    simp only [hp, Except.ok.injEq] at h
+    subst h
+    exact ⟨l, rfl, fun _ => rfl, fun mask hm => contractProd_total mask f.sizes f.val hm⟩
+
+/-- the scalar variants: `s_sum` is `sum()` over all sub-domains, `s_integrate` is `integrate()`, `s_mean` is
+    `s_integrate / total_volume` and therefore `mean()` — entry `[]` (any output index) of the corresponding Field -/
+theorem scalar_variants [Field K] [DecidableEq K] (f : Fld K) (o : Idx) :
+    (∃ g, fsum f .none = .ok g ∧ g.val o = sSum f) ∧
+    (∀ v, sIntegrate f = .ok v → ∃ g, integrate f .none = .ok g ∧ g.val o = v) ∧
+    (∀ v m V, sMean f = .ok v → mean f .none = .ok m → totalVolume f.subs .none = .ok V →
+      (∀ s ∈ f.subs, VolConsistent s) → V ≠ 0 → m.val o = v) := by
+  have hmask : maskOf f.subs.length (List.range f.subs.length) = List.replicate f.sizes.length true := by
+    rw [maskOf_range]; simp [Fld.sizes]
+  have hsum : ∀ (g : Fld K), g.subs = f.subs →
+      contract (maskOf f.subs.length (List.range f.subs.length)) g.sizes g.val o = sSum g := by
+    intro g hg
+    have : g.sizes = f.sizes := by simp [Fld.sizes, hg]
+    rw [hmask, ← this, contract_all]; rfl
+  have hint : ∀ v, sIntegrate f = .ok v → ∃ g, integrate f .none = .ok g ∧ g.val o = v := by
+    intro v hv
+    unfold sIntegrate at hv
+    unfold integrate
+    cases hsw : scalarWeight f.subs .none with
+    | error e => simp only [hsw] at hv; cases hv
+    | ok r =>
+      cases r with
+      | some swgt =>
+        simp only [hsw, Except.ok.injEq] at hv ⊢
+        refine ⟨_, rfl, ?_⟩
+        simp only [fsum, parseSpaces, smulFloat, contractFld]
+        rw [hsum f rfl, hv]
+      | none =>
+        simp only [hsw] at hv ⊢
+        cases hw : weight f 1 .none with
+        | error e => simp only [hw] at hv; cases hv
+        | ok tmp =>
+          simp only [hw, Except.ok.injEq] at hv ⊢
+          obtain ⟨l, hp, hsubs, _, _⟩ := weight_val f tmp 1 .none hw
+          refine ⟨_, rfl, ?_⟩
+          simp only [fsum, parseSpaces, contractFld, hsubs]
+          rw [hsum tmp hsubs, hv]
+  refine ⟨⟨_, rfl, ?_⟩, hint, ?_⟩
+  · simp only [contractFld]
+    exact hsum f rfl
+  · intro v m V hv hm hV hvc hV0
+    unfold sMean at hv
+    cases hi : sIntegrate f with
+    | error e => simp only [hi] at hv; cases hv
+    | ok s =>
+      simp only [hi, hV, Except.ok.injEq] at hv
+      obtain ⟨g, hg, hgv⟩ := hint s hi
+      rw [mean_eq_integrate_div_volume f m g .none V hm hg hV hvc hV0 o, hgv, hv]
+
+
+example :
+    let f : Fld Rat := ⟨0, [⟨[2], .vector #[1/2, 2], none⟩, ⟨[2], .scalar (1/2), none⟩], DT.float,
+      fun i => (2 * i.headD 0 + i.tail.headD 0 + 1 : Nat)⟩
+    (sSum f, sProd f, (match sIntegrate f with | .ok v => v | .error _ => 0), (match sMean f with | .ok v => v | .error _ => 0),
+     (match fprod f (.scalar 1) with | .ok g => [g.val [0], g.val [1]] | .error _ => []))
+      = (10, 24, 31/4, 31/10, [2, 12]) := by
+  decide +kernel
+
+/-- `s_var` is `var()` over all sub-domains (both code paths; on the volume-weighted path under the hypotheses that
+    make `s_mean = mean()`) -/
+theorem scalar_var [Field K] [DecidableEq K] (nsq : K → K) (f g : Fld K) (v V : K) (o : Idx)
+    (hreal : f.dt ≠ DT.complex → ∀ z, nsq z = z * z)
+    (hv : sVar nsq f = .ok v) (hg : var nsq f .none = .ok g)
+    (hV : totalVolume f.subs .none = .ok V) (hvc : ∀ s ∈ f.subs, VolConsistent s) (hV0 : V ≠ 0) :
+    g.val o = v := by
+  have hmask : maskOf f.subs.length (List.range f.subs.length) = List.replicate f.sizes.length true := by
+    rw [maskOf_range]; simp [Fld.sizes]
+  unfold sVar at hv
+  cases hsw : scalarWeight f.subs .none with
+  | error e => simp only [hsw] at hv; cases hv
+  | ok r =>
+    cases r with
+    | some swgt =>
+      simp only [hsw, Except.ok.injEq] at hv
+      unfold var at hg
+      simp only [hsw, parseSpaces, Except.ok.injEq] at hg
+      subst hg; subst hv
+      simp only [contractFld, npVar, npMean, hmask, contract_all]
+    | none =>
+      simp only [hsw] at hv
+      cases hm1 : sMean f with
+      | error e => simp only [hm1] at hv; cases hv
+      | ok m1 =>
+        simp only [hm1] at hv
+        obtain ⟨m, l, d, g', hm, hp, hsq, hgg⟩ := var_eq_mean_sq_dev nsq f g .none hreal hg
+        simp only [parseSpaces, Except.ok.injEq] at hp
+        subst hp
+        have hmv : ∀ i, m.val (sel false (maskOf f.subs.length (List.range f.subs.length)) i) = m1 := by
+          intro i
+          exact (scalar_variants f _).2.2 m1 m V hm1 hm hV hvc hV0
+        rw [hgg o]
+        -- the squared-deviation field of `var` equals the one of `s_var` up to the dtype tag
+        have hval : (fun i => nsq (f.val i - m.val (sel false (maskOf f.subs.length (List.range f.subs.length)) i)))
+            = (fun i => nsq (f.val i - m1)) := by funext i; rw [hmv i]
+        rw [hval] at hsq
+        have hsm : sMean ({ f with dt := d, val := fun i => nsq (f.val i - m1) } : Fld K) = .ok v := by
+          by_cases hc : f.dt = DT.complex
+          · simp only [hc, if_true] at hv
+            exact sMean_dt _ d v hv
+          · simp only [hc, if_false] at hv
+            have := sMean_dt _ d v hv
+            simpa [hreal hc] using this
+        exact (scalar_variants _ o).2.2 v g' V hsm hsq hV hvc hV0
+
+
+example :
+    let f : Fld Rat := ⟨0, [⟨[2], .vector #[1/2, 2], none⟩], DT.float, fun i => if i.headD 0 = 0 then 3 else 5⟩
+    (match sVar (fun z => z * z) f with | .ok v => v | .error _ => 0) = 16/25 := by decide +kernel
+
 /-! ### the theorems apply to what the driver executes
   `CRat` (exact complex rationals) with the core instances of Model/Field.lean is a field (Lemmas/FieldCRat.lean) and
   `CRat.conj` a ring involution; below the Mathlib instance is switched off, so `weight`, `integrate`, … are
@@ -522,9 +1005,9 @@ theorem integrate_driver (f g : Fld CRat) (sp : Spaces) (h : integrate f sp = .o
 
 theorem mean_driver (f m h : Fld CRat) (sp : Spaces) (V : CRat)
     (hm : mean f sp = .ok m) (hi : integrate f sp = .ok h) (hV : totalVolume f.subs sp = .ok V)
-    (hstd : ∀ i, (f.subs.getD i default).tv = none) (hV0 : V ≠ 0) :
+    (hvc : ∀ s ∈ f.subs, @VolConsistent CRat CRat.instField s) (hV0 : V ≠ 0) :
     ∀ o, m.val o = h.val o * V⁻¹ :=
-  @mean_eq_integrate_div_volume CRat CRat.instField _ f m h sp V hm hi hV hstd hV0
+  @mean_eq_integrate_div_volume CRat CRat.instField _ f m h sp V hm hi hV hvc hV0
 
 theorem var_driver (f g : Fld CRat) (sp : Spaces) (hc : f.dt = DT.complex) (h : var CRat.nsq f sp = .ok g) :
     ∃ m l d g', mean f sp = .ok m ∧ parseSpaces sp f.subs.length = .ok l ∧
@@ -541,7 +1024,7 @@ theorem vdot_driver (f g r : Fld CRat) (hc : f.dt = DT.complex) (h : vdot CRat.c
   exact ⟨hd, hfull (by simp)⟩
 
 theorem mean_weighted_driver (f m : Fld CRat) (sp : Spaces) (hm : mean f sp = .ok m)
-    (hs : ∀ s ∈ f.subs, s.tv = none ∧ s.dvol ≠ .none)
+    (hs : ∀ s ∈ f.subs, @VolConsistent CRat CRat.instField s)
     (hW : ∀ l o, parseSpaces sp f.subs.length = .ok l → @fibreVolume CRat CRat.instField f l o ≠ 0) :
     ∃ l, parseSpaces sp f.subs.length = .ok l ∧ ∀ o,
       m.val o =
@@ -552,7 +1035,7 @@ theorem mean_weighted_driver (f m : Fld CRat) (sp : Spaces) (hm : mean f sp = .o
   @mean_weighted CRat CRat.instField _ f m sp hm hs hW
 
 theorem var_weighted_driver (f g : Fld CRat) (sp : Spaces) (hc : f.dt = DT.complex)
-    (hs : ∀ s ∈ f.subs, s.tv = none ∧ s.dvol ≠ .none)
+    (hs : ∀ s ∈ f.subs, @VolConsistent CRat CRat.instField s)
     (hW : ∀ l o, parseSpaces sp f.subs.length = .ok l → @fibreVolume CRat CRat.instField f l o ≠ 0)
     (h : var CRat.nsq f sp = .ok g) :
     ∃ l m, parseSpaces sp f.subs.length = .ok l ∧ mean f sp = .ok m ∧
@@ -563,6 +1046,35 @@ theorem var_weighted_driver (f g : Fld CRat) (sp : Spaces) (hc : f.dt = DT.compl
               prodOver l (fun ind => dvolAt f.subs ind (merge (maskOf f.subs.length l) o c))) *
           (@fibreVolume CRat CRat.instField f l o)⁻¹ :=
   @var_eq_weighted_variance CRat CRat.instField _ CRat.nsq f g sp (fun hne => absurd hc hne) hs hW h
+
+/-- the element operations the driver uses: `<` on exact complex rationals is NumPy's lexicographic order; with them
+    the point-wise theorems hold for the driver's `fieldBin` -/
+theorem pointwise_driver (o : BinOp) (rev : Bool) (f g r : Fld CRat) (a b : CRat)
+    (h : fieldBin CRat.elemOps o rev f g = .ok r) :
+    (g.dom = f.dom ∧ r.subs = f.subs ∧
+      ∀ i, r.val i = if rev then evalBin CRat.elemOps o (g.val i) (f.val i)
+                     else evalBin CRat.elemOps o (f.val i) (g.val i)) ∧
+    (CRat.elemOps.lt a b = true ↔ a.re < b.re ∨ (a.re = b.re ∧ a.im < b.im)) ∧
+    funite CRat.elemOps f g = fieldBin CRat.elemOps .add false f g ∧
+    fflex CRat.elemOps f g true = fieldBin CRat.elemOps .sub false f g := by
+  obtain ⟨h1, _, h3, h4⟩ := (@pointwise_binop_elementwise CRat CRat.instField _ CRat.elemOps o rev f g).2 r h
+  refine ⟨⟨h1, h3, h4⟩, ?_, rfl, rfl⟩
+  simp [CRat.elemOps, CRat.lt]
+
+theorem multifield_vdot_driver (a b : MFld CRat) (v : CRat) (h : msVdot CRat.conj a b = .ok v) :
+    b.dom = a.dom ∧ v = mvdVal CRat.conj a b := by
+  obtain ⟨h1, _, h3⟩ := (@multifield_vdot CRat CRat.instField.toCommRing CRat.conj a b).2 v h
+  exact ⟨h1, h3⟩
+
+theorem all_any_size_driver (f : Fld CRat) (a : MFld CRat) :
+    (sAll f = true ↔ ∀ i ∈ allIdx f.sizes, f.val i ≠ 0) ∧ (msAny a = true ↔ ∃ z ∈ mentries a, z ≠ 0) ∧
+    msize a = (mentries a).length := by
+  obtain ⟨h1, _, _, _, _, h6, h7⟩ := @all_any_size_spec CRat CRat.instField _ f a [] []
+  exact ⟨h1, h6, h7⟩
+
+theorem scalar_variants_driver (f : Fld CRat) (v : CRat) (h : sIntegrate f = .ok v) :
+    ∃ g, integrate f .none = .ok g ∧ g.val [] = v :=
+  (@scalar_variants CRat CRat.instField _ f []).2.1 v h
 
 end Driver
 
